@@ -36,6 +36,7 @@ type checker struct {
 	agg             *agg
 	runsDone        int
 	curPrior        map[int][]int
+	raceReplays     int
 }
 
 type foundViolation struct {
